@@ -213,3 +213,52 @@ def gen_xorencoded_files():
             enc[-i] = 0xFF
         out.append({"file": {"bytes": list(bytes(enc))}, "pos": 0, "fkind": "bytesio"})
     return out
+
+
+def payload_checksum_ref(data):
+    n = 0
+    for i, c in enumerate(data):
+        n = (n + c * (i % 3 + 1)) % 99999999
+    return n
+
+
+def guardrails_payload(envkey, options=(5,), config=None, prefix=b"", suffix=b"", bad_checksum=False, terminator=True,
+                       guard_pad=2048):
+    """reference Guardrails encoder written from the format: the 6144-byte configuration area is XORed with the
+    environmental key and 0x2e; the 2048-byte guard configuration (TLV settings incl. option 9 = checksum + 1) is
+    XORed with the reversed masked configuration and 0x8a"""
+    if config is None:
+        config = bytes.fromhex("00010001000200080002000100020050") + bytes(16)
+    cfg = config + bytes(6144 - len(config))
+    tiled = (envkey * (6144 // len(envkey) + 1))[:6144]
+    mb = bytes(c ^ k ^ 0x2E for c, k in zip(cfg, tiled))
+    guard = b""
+    vals = {5: (1, (2).to_bytes(2, "big")), 6: (1, (3).to_bytes(2, "big")), 7: (1, (4).to_bytes(2, "big")),
+            8: (2, (0x0A000001).to_bytes(4, "big"))}
+    for opt in options:
+        ty, val = vals[opt]
+        guard += opt.to_bytes(2, "big") + ty.to_bytes(2, "big") + len(val).to_bytes(2, "big") + val
+    cs = payload_checksum_ref(cfg) + 1 + (7 if bad_checksum else 0)
+    guard += (9).to_bytes(2, "big") + (2).to_bytes(2, "big") + (4).to_bytes(2, "big") + cs.to_bytes(4, "big")
+    if terminator:
+        guard += b"\x00\x00"
+    guard = (guard + bytes(max(0, guard_pad - len(guard))))[:guard_pad] if terminator else guard
+    rev = mb[::-1]
+    mg = bytes(g ^ rev[i % len(rev)] ^ 0x8A for i, g in enumerate(guard))
+    return prefix + mb + mg + suffix
+
+
+def gen_guardrail_files():
+    out = []
+    for key in (b"ab", b"secret-key", bytes(range(1, 40))):
+        for opts in ((5,), (6, 7), (8,), (5, 6, 7, 8)):
+            for prefix in (b"", b"\x90" * 7):
+                out.append(guardrails_payload(key, opts, prefix=prefix, suffix=b"\xcc" * 3))
+    out.append(guardrails_payload(b"kk", bad_checksum=True))
+    out.append(guardrails_payload(b"kk", terminator=False))                  # unterminated guard settings at EOF
+    blk = guardrails_payload(b"zz")[6144 - 6:6144 + 12]
+    out.append(blk)                                                         # marker at offset 0: no room for a config
+    out.append(b"\x00" * 100 + blk + b"\x01" * 40)
+    out.append(guardrails_payload(b"zz")[:6144 + 9])                         # truncated inside the marker
+    out += [b"", b"\x8a" * 30]
+    return [{"file": {"bytes": list(x)}, "pos": 0, "fkind": "bytesio"} for x in out]
